@@ -265,6 +265,17 @@ func exploreSmall(r *ev.Run, im impl, h int, poseidon, pairs, concrete bool) (st
 					}
 				}
 			}
+			if pairs && h == 2 {
+				// three writes inside one commit (height-2 tries only): the shortest sequences in which one key - or the
+				// whole trie - goes away, comes back and goes away again before anything is persisted
+				for _, o1 := range ops {
+					for _, o2 := range ops {
+						for _, o3 := range ops {
+							try([]op{o1, o2, o3})
+						}
+					}
+				}
+			}
 		})
 		frontier = next
 		if r.OutOfTime() {
